@@ -3,12 +3,18 @@
 selftest/mutants.json. Edit MUT, run once. Each must compile and keep the suite green to be meaningful (checked by hand)."""
 import os, shutil, subprocess, sys, json
 MUT = [
- ("hand-c01-r16-bound-one-bit-too-large", "C01", ["R16/"], "src/creator/content_pack/creator.rs", "const MAX_CLUSTERS_PER_PACK: u32 = 1 << 20;", "const MAX_CLUSTERS_PER_PACK: u32 = 1 << 21;"),
- ("hand-c01-r17-rewind-only-when-sampling", "C01", ["R17/"], "src/creator/content_pack/creator.rs", "        content.rewind()?;\n        let content_size = content.size();", "        let content_size = content.size();"),
- ("hand-c02-r12-bound-32", "C02", ["R12/"], "src/creator/directory_pack/schema/property.rs", "            fixed_array_len <= 31,", "            fixed_array_len <= 32,"),
- ("hand-c02-r13-ties-less", "C02", ["R13/"], "src/creator/directory_pack/mod.rs", "        cmp::Ordering::Equal\n    }\n}", "        cmp::Ordering::Less\n    }\n}"),
- ("hand-c14-r10-value-stores-not-rebased", "C14", ["R10/FinalizedDirectoryPackCreator.write/position-of-part#2"], "src/creator/directory_pack/directory_pack.rs", "value_stores_offsets.push(in_pack(value_store.write().unwrap().write(&mut buffered)?));", "value_stores_offsets.push(value_store.write().unwrap().write(&mut buffered)?);"),
- ("hand-c14-r10-manifest-rebased-copy-unused", "C14", ["R10/ManifestPackCreator.finalize"], "src/creator/manifest_pack.rs", "        let value_store_pos = SizedOffset::new(\n            value_store_pos.size,\n            (value_store_pos.offset.into_u64() - origin_offset).into(),\n        );", "        let _relative = SizedOffset::new(\n            value_store_pos.size,\n            (value_store_pos.offset.into_u64() - origin_offset).into(),\n        );"),
+ ("hand-c03-r1-check-strict", "C03", ["R1/finalize/check-compares-neighbours-non-decreasing"], "src/creator/directory_pack/entry_store.rs", ".all(|w| w[0].compare(&keys, &w[1]).is_le())", ".all(|w| w[0].compare(&keys, &w[1]).is_lt())"),
+ ("hand-c03-r1-comparator-swapped", "C03", ["R1/finalize/sorted-with-compare"], "src/creator/directory_pack/entry_store.rs", "let compare = |a: &Entry, b: &Entry| a.compare(&keys, b);", "let compare = |a: &Entry, b: &Entry| b.compare(&keys, a);"),
+ ("hand-c03-r1-resort-once", "C03", ["R1/finalize/unsorted-never-goes-on"], "src/creator/directory_pack/entry_store.rs", "            while !self\n                .entries", "            if !self\n                .entries"),
+ ("hand-c03-r2-prefix-swapped", "C03", ["R2/Array::cmp/same-field-self-vs-other"], "src/creator/directory_pack/value.rs", "    fn cmp(&self, other: &Array) -> cmp::Ordering {\n        match self.data.cmp(&other.data) {", "    fn cmp(&self, other: &Array) -> cmp::Ordering {\n        match other.data.cmp(&self.data) {"),
+ ("hand-c03-r2-greater-is-less", "C03", ["R2/ArrayS::::cmp_array/first-difference-decides"], "src/creator/directory_pack/value.rs", "        match self.data.as_slice().cmp(&other.data) {\n            cmp::Ordering::Less => cmp::Ordering::Less,\n            cmp::Ordering::Greater => cmp::Ordering::Greater,", "        match self.data.as_slice().cmp(&other.data) {\n            cmp::Ordering::Less => cmp::Ordering::Less,\n            cmp::Ordering::Greater => cmp::Ordering::Less,"),
+ ("hand-c03-r3-arm-swapped", "C03", ["R3/Value.partial_cmp/self-vs-other"], "src/creator/directory_pack/value.rs", "                Value::Array0(other) => Some(v.cmp_array_s(other)),", "                Value::Array0(other) => Some(other.cmp_array(v)),"),
+ ("hand-c03-r4-less-is-greater", "C03", ["R4/compare/sign-kept"], "src/creator/directory_pack/mod.rs", "                    cmp::Ordering::Less => return cmp::Ordering::Less,", "                    cmp::Ordering::Less => return cmp::Ordering::Greater,"),
+ ("hand-c03-r5-left-stays-at-mid", "C03", ["R5/find/ordered/less-moves-left-beyond-mid"], "src/reader/directory_pack/range.rs", "                    left = mid + EntryCount::from(1);", "                    left = mid;"),
+ ("hand-c03-r5-answers-absolute-index", "C03", ["R5/find/ordered/looks-at-offset-plus-i-answers-i"], "src/reader/directory_pack/range.rs", "                    return Ok(Some(mid));", "                    return Ok(Some(self.offset() + mid));"),
+ ("hand-c03-r5-linear-skips-first", "C03", ["R5/find/linear/every-index"], "src/reader/directory_pack/range.rs", "            for idx in self.count() {", "            for idx in self.count().into_iter().skip(1) {"),
+ ("hand-c03-r6-probe-prefix-is-less", "C03", ["R6/Array.cmp/probe-exhausted-first-is-greater"], "src/reader/directory_pack/raw_value.rs", "                None => return Ok(cmp::Ordering::Greater),", "                None => return Ok(cmp::Ordering::Less),"),
+ ("hand-c03-r6-u8-swapped", "C03", ["R6/RawValue.partial_cmp/self-vs-other"], "src/reader/directory_pack/raw_value.rs", "            Value::Unsigned(v) => Ok(match self {\n                RawValue::U8(r) => Some((*r as u64).cmp(v)),", "            Value::Unsigned(v) => Ok(match self {\n                RawValue::U8(r) => Some(v.cmp(&(*r as u64))),"),
 ]
 specs = json.load(open('/verif/selftest/mutants.json'))
 have = {s["name"] for s in specs}
